@@ -260,17 +260,23 @@ def _one_run(spec: dict, hseed, pool) -> dict:
     EV.clear()
     gen = MazeDataset.generate(cfg)
     ev_gen = events_json(EV)
+    gen_sig_now, gen_n_now, gen_json_now = sig(gen), len(gen), (mazes_json(gen) if len(gen) <= 6 else None)
+    if hseed is not None and len(gen.mazes) > 0 and (__import__("zlib").crc32(str(hseed).encode()) % 3 == 0):
+        # the caller owns the dataset it was given: it edits it in place (observed above) before asking for the same configuration again
+        acts.append("edit_returned_dataset")
+        gen.mazes[0].connection_list[...] = ~gen.mazes[0].connection_list
+        gen.mazes.reverse(); gen.mazes.pop(); gen.cfg.applied_filters.append(dict(name="verif_probe", args=(), kwargs={}))
     acts += perturb(_pyrandom.Random(f"hist2:{hseed}"), pool, spec)[:3] if hseed is not None else []
     EV.clear()
     fc = MazeDataset.from_config(cfg, load_local=False, save_local=False, do_download=False)
     ev_fc = events_json(EV)
     manual = manual_filters(MazeDataset.generate(cfg), filters_before)
-    return dict(acts=acts, gen_sig=sig(gen), fc_sig=sig(fc), manual_sig=sig(manual), ev_gen=ev_gen, ev_fc=ev_fc,
+    return dict(acts=acts, gen_sig=gen_sig_now, fc_sig=sig(fc), manual_sig=sig(manual), ev_gen=ev_gen, ev_fc=ev_fc,
                 cfg_unchanged=ser(cfg) == ser_before and cfg.applied_filters == filters_before,
                 out_cfg_is_copy=(gen.cfg is not cfg) and (fc.cfg is not cfg),
                 fc_filters_ok=[f["name"] for f in fc.cfg.applied_filters] == [f["name"] for f in filters_before],
-                fc_n=len(fc), fc_cfg_n=int(fc.cfg.n_mazes), gen_n=len(gen), seed=int(cfg.seed),
-                gen_mazes=mazes_json(gen) if len(gen) <= 6 else None)
+                fc_n=len(fc), fc_cfg_n=int(fc.cfg.n_mazes), gen_n=gen_n_now, seed=int(cfg.seed),
+                gen_mazes=gen_json_now)
 
 
 def check_run(ctx, spec, hseed, r, ref, reqs):
